@@ -5,8 +5,10 @@ import (
 	"fmt"
 	"sync"
 
+	"github.com/libsv/go-bt/v2"
 	"github.com/libsv/go-bt/v2/bscript/interpreter"
 	"github.com/libsv/go-bt/v2/bscript/interpreter/debug"
+	"github.com/libsv/go-bt/v2/bscript/interpreter/scriptflag"
 
 	"verif/internal/ref/scriptref"
 	"verif/internal/rep"
@@ -15,7 +17,7 @@ import (
 // lifecycle checks a callback trace against the documented order:
 //
 //	Trace := "" | E Step* [Abort] e Stk* (Y|N)
-//	Step  := S O Stk* [o] Stk* [C c] Stk* s
+//	Step  := S O Stk* o Stk* [C c] Stk* s   (an aborted step may stop anywhere; the step of a terminating OP_RETURN goes from O straight to the script change)
 //	Stk   := (P p | Q q)
 //	Abort := a proper prefix of Step, possibly ending in one unmatched Q
 //
@@ -77,14 +79,18 @@ func lifecycle(tr []byte, ok bool) string {
 			aborted = true
 			break
 		}
+		sawAfterOpcode := false
 		if peek() == 'o' {
+			sawAfterOpcode = true
 			i++
 			if stk() {
 				aborted = true
 				break
 			}
 		}
+		changed := false
 		if peek() == 'C' {
+			changed = true
 			if i+1 >= len(tr) || tr[i+1] != 'c' {
 				return fmt.Sprintf("position %d: BeforeScriptChange without AfterScriptChange", i)
 			}
@@ -95,6 +101,9 @@ func lifecycle(tr []byte, ok bool) string {
 			}
 		}
 		if peek() == 's' {
+			if !sawAfterOpcode && !changed {
+				return fmt.Sprintf("position %d: a step that completed (AfterStep) never fired AfterExecuteOpcode", i)
+			}
 			i++
 			continue
 		}
@@ -238,9 +247,10 @@ var _ interpreter.Debugger = (*recorder)(nil)
 
 func init() {
 	p := register(&Prop{ID: "C19", Level: "model_checking",
-		Rule: "explicit-state exploration of the real interpreter, each program executed five ways (no debugger, recording debugger, debugger that scribbles over every byte of every stack/cond/saved-stack item and every scalar of every *State it is handed, and both again through debug.NewDebugger's fan-out with all 14 attach points): (1) identical verdict and error text in all runs; (2) the callback trace is accepted by the lifecycle automaton Trace := E Step* [Abort] e Stk* (Y|N), Step := S O Stk* [o] Stk* [C c] Stk* s, and success/error callback matches the verdict; (3) the scribbling runs produce the same callback trace and the same AfterStep snapshot sequence as the recording run; (4) consecutive snapshots agree with the reference machine's effect of the instruction between them, and the stack items of every snapshot handed to the first 96 callbacks, kept by the debugger without copying, still read the same when the execution has finished; the snapshot handed to AfterScriptChange shows an empty alt stack (it does not survive a script boundary). Spaces: every byte string of length<=2 as locking script x 4 seed unlocking scripts x 2 eras (length 3 over a 48-symbol alphabet when thorough), every opcode x operand tuples of arity<=2 over 10 edge operands x 2 eras, the control-flow program search of C05 (depth 5/6), P2SH (pre-genesis, saved first stack) / limit / OP_RETURN templates, signature spends. states = distinct callback traces, transitions = callbacks checked",
+		Rule: "explicit-state exploration of the real interpreter, each program executed five ways (no debugger, recording debugger, debugger that scribbles over every byte of every stack/cond/saved-stack item and every scalar of every *State it is handed, and both again through debug.NewDebugger's fan-out with all 14 attach points): (1) identical verdict and error text in all runs; (2) the callback trace is accepted by the lifecycle automaton Trace := E Step* [Abort] e Stk* (Y|N), Step := S O Stk* o Stk* [C c] Stk* s (an aborted step may stop anywhere; a completed one fires every hook, except that the step of a terminating OP_RETURN goes from O straight to the script change), and success/error callback matches the verdict; (3) the scribbling runs produce the same callback trace and the same AfterStep snapshot sequence as the recording run; (4) consecutive snapshots agree with the reference machine's effect of the instruction between them, and the stack items of every snapshot handed to the first 96 callbacks, kept by the debugger without copying, still read the same when the execution has finished; the snapshot handed to AfterScriptChange shows an empty alt stack (it does not survive a script boundary). Spaces: every byte string of length<=2 as locking script x 4 seed unlocking scripts x 2 eras (length 3 over a 48-symbol alphabet when thorough), every opcode x operand tuples of arity<=2 over 10 edge operands x 2 eras, the control-flow program search of C05 (depth 5/6), P2SH (pre-genesis, saved first stack) / limit / OP_RETURN templates, signature spends. states = distinct callback traces, transitions = callbacks checked",
 	})
 	NewSpace(p, "exec", c19Check)
+	spState := NewSpace(p, "resume", c19StateCheck)
 	p.Run = func(r *rep.Run, thorough bool) {
 		if _, err := scriptref.Anchor(vectorsDir() + "/script_tests.json"); err != nil {
 			r.HarnessError("script reference failed its anchor: " + err.Error())
@@ -309,6 +319,16 @@ func init() {
 		c19BFS(r, p, chk, thorough)
 		c05Templates(r, p, func(c scriptCase) []rep.Finding { return chk(c) }, thorough)
 		sp.Slice(r, c08SigCases())
+		// resumed executions (WithState) with and without a debugger
+		var rs []scriptCase
+		for op := 0; op < 256; op++ {
+			for _, f := range []uint32{0, fGenesis} {
+				rs = append(rs, scriptCase{Unlock: pushAll([]byte{0x02}, []byte{0x01}), Lock: append(lockFor(byte(op)), 0x51), Flags: f})
+				rs = append(rs, scriptCase{Unlock: pushAll([]byte{0x05}, []byte{}), Lock: bytesJoin([]byte{0x63}, lockFor(byte(op)), []byte{0x67, 0x51, 0x68, 0x51}), Flags: f})
+			}
+		}
+		spState.Slice(r, rs)
+		r.Note("resumed_execution_cases", len(rs))
 		r.Note("states", r.DistinctCount())
 		r.Note("transitions", callbacks)
 		r.Note("traces_validated_against_impl", traces)
@@ -362,4 +382,80 @@ func c19BFS(r *rep.Run, p *Prop, chk func(scriptCase) []rep.Finding, thorough bo
 			}
 		}
 	}
+}
+
+// ---- WithState: a resumed execution has the same verdict with and without a debugger ----
+
+type stateGrabber struct {
+	recorder
+	states []*interpreter.State
+}
+
+func (g *stateGrabber) BeforeStep(s *interpreter.State) {
+	if len(g.states) < 6 {
+		g.states = append(g.states, copyState(s))
+	}
+	g.recorder.BeforeStep(s)
+}
+
+func copyState(s *interpreter.State) *interpreter.State {
+	c := *s
+	cp := func(st [][]byte) [][]byte {
+		out := make([][]byte, len(st))
+		for i := range st {
+			out[i] = append([]byte{}, st[i]...)
+		}
+		return out
+	}
+	c.DataStack, c.AltStack, c.ElseStack, c.SavedFirstStack = cp(s.DataStack), cp(s.AltStack), cp(s.ElseStack), cp(s.SavedFirstStack)
+	c.CondStack = append([]int(nil), s.CondStack...)
+	c.Scripts = make([]interpreter.ParsedScript, len(s.Scripts))
+	for i := range s.Scripts {
+		c.Scripts[i] = append(interpreter.ParsedScript(nil), s.Scripts[i]...)
+	}
+	return &c
+}
+
+func c19StateCheck(c scriptCase) (fs []rep.Finding) {
+	g := &stateGrabber{}
+	_, _, _, _, _ = libRun(c, g)
+	var states []*interpreter.State
+	for _, st := range g.states {
+		// the state as captured, and with the truth value of the top stack item inverted (a
+		// resumed run then ends differently from a run from the start)
+		states = append(states, st)
+		if n := len(st.DataStack); n > 0 {
+			m := copyState(st)
+			if scriptref.CastToBool(m.DataStack[n-1]) {
+				m.DataStack[n-1] = []byte{}
+			} else {
+				m.DataStack[n-1] = []byte{0x01}
+			}
+			states = append(states, m)
+		}
+	}
+	for k, st := range states {
+		st := st
+		run := func(dbg interpreter.Debugger) (res string) {
+			if f := rep.Guard(func() {
+				rt, amount := c.ctx()
+				tx := toLib(rt)
+				prev := &bt.Output{Satoshis: amount, LockingScript: libScript(c.Lock)}
+				opts := []interpreter.ExecutionOptionFunc{interpreter.WithTx(tx, c.idx(), prev), interpreter.WithFlags(scriptflag.Flag(c.Flags)), interpreter.WithState(copyState(st))}
+				if dbg != nil {
+					opts = append(opts, interpreter.WithDebugger(dbg))
+				}
+				res = errText(interpreter.NewEngine().Execute(opts...))
+			}); f != nil {
+				res = "panic: " + f.Key
+			}
+			return
+		}
+		plain, with := run(nil), run(&recorder{})
+		if plain != with {
+			fs = append(fs, rep.F("verdict-changes-with-debugger|resumed-from-state|"+era(c.Flags), fmt.Sprintf("execution resumed (WithState) from the state before step %d: without debugger %s, with debugger %s", k, plain, with)))
+			break
+		}
+	}
+	return
 }
